@@ -131,13 +131,13 @@ Definition verdict (a : anycase) : N :=
   match a with
   | CMain c None => verdict_main c
   | CMain c (Some s) =>
-      let ds := defs_of c in
       (* the model's schema of the root value against the implementation's, in all three runs, is part of the mismatch bit
          OUTSIDE C06Schema.hist_class (schemas that depend on how often a value has been merged: the model does not follow
          Go's mutable per-value schema field there; inside the class the comparison is only a measurement, see C06Schema.v);
          the schema clause itself is decided by the vspec oracle on the implementation's own schema (fail_new below) *)
       verdict_bits (mismatch c || C06Schema.sch_mismatch (c_world c) (c_name c) (c_def c) s)
-                   (spec_fail_new c || C06Schema.fail_new ds s) (spec_fail_known c || C06Schema.fail_known ds s)
+                   (spec_fail_new c || C06Schema.fail_new_w (c_world c) (c_name c) (c_def c) s)
+                   (spec_fail_known c || C06Schema.fail_known_w (c_world c) (c_name c) (c_def c) s)
                    (nontrivial c || C06Schema.decided s)
   | COther o => C06Schema.verdict_other o
   end.
